@@ -67,14 +67,18 @@ struct Fixed {
     return true;
   }
   template <class T> void InsertT(T &t, const PEntry &e) {
-    try { PEntry *i = t.Insert(e); printf("ok %zu\n", (size_t)(i - mem)); }
+    try {
+      PEntry *i = t.Insert(e);
+      if (i < mem || i >= mem + n || i->key != e.key) puts("bad-iterator"); else printf("ok %zu\n", (size_t)(i - mem));
+    }
     catch (const util::ProbingSizeException &) { puts("full"); }
   }
   template <class T> void FoiT(T &t, const PEntry &e) {
     try {
       PEntry *out = NULL;
       bool f = t.FindOrInsert(e, out);
-      if (f) printf("found %zu %llu\n", (size_t)(out - mem), (unsigned long long)out->value);
+      if (out < mem || out >= mem + n || out->key != e.key) puts("bad-iterator");
+      else if (f) printf("found %zu %llu\n", (size_t)(out - mem), (unsigned long long)out->value);
       else printf("new %zu\n", (size_t)(out - mem));
     } catch (const util::ProbingSizeException &) { puts("full"); }
   }
@@ -225,13 +229,16 @@ int main() {
     } else if (op == "ains") {
       PEntry e; in >> e.key >> e.value;
       PEntry *i = au->Insert(e);
-      printf("ok %zu\n", (size_t)(i - au->RawBegin()));
+      // the returned iterator must designate the entry inside the (possibly relocated) table
+      if (i < au->RawBegin() || i >= au->RawEnd() || i->key != e.key) puts("bad-iterator");
+      else printf("ok %zu\n", (size_t)(i - au->RawBegin()));
     } else if (op == "afoi") {
       PEntry e; in >> e.key >> e.value;
       try {
         PEntry *out = NULL;
         bool f = au->FindOrInsert(e, out);
-        if (f) printf("found %zu %llu\n", (size_t)(out - au->RawBegin()), (unsigned long long)out->value);
+        if (out < au->RawBegin() || out >= au->RawEnd() || out->key != e.key) puts("bad-iterator");
+        else if (f) printf("found %zu %llu\n", (size_t)(out - au->RawBegin()), (unsigned long long)out->value);
         else printf("new %zu\n", (size_t)(out - au->RawBegin()));
       } catch (const util::ProbingSizeException &) { puts("full"); }
     } else if (op == "afind") {
